@@ -380,6 +380,27 @@ func runGenerated(r *rng.R, idx int) *Result {
 				continue
 			}
 		}
+		// negation gadget (window of a28a3f7): a writer is parked between two queue puts, a reader runs a query with
+		// NOT over the writer's fraction from start to end
+		if r.Chance(1, 7) {
+			ri := r.Intn(readersOn)
+			rd := e.rs[ri]
+			for w := range e.ws {
+				if e.ws[w].state == 2 && e.ws[w].at == 7 && !rd.inop {
+					do(Label{K: "Snap", T: ri})
+					for j, g := range rd.snapG {
+						if g == e.ws[w].g {
+							do(Label{K: "SB", T: ri, J: j, Q: rng.Pick(r, []int{4, 5, 8})})
+							for rd.inop && !e.hang {
+								do(Label{K: "R", T: ri})
+							}
+						}
+					}
+					e.counts = append(e.counts, "gadget:negation-between-puts")
+					break
+				}
+			}
+		}
 		var cs []cand
 		for w := range e.ws {
 			if e.Enabled(Label{K: "W", T: w}) {
